@@ -31,7 +31,8 @@ func ltDump(v reflect.Value, out *[]string) {
 	case reflect.Struct:
 		if t.ConvertibleTo(timeType) {
 			tm := v.Convert(timeType).Interface().(time.Time)
-			*out = append(*out, fmt.Sprintf("t%d.%d", tm.Unix(), tm.Nanosecond()))
+			_, off := tm.Zone()
+			*out = append(*out, fmt.Sprintf("t%d.%dz%d", tm.Unix(), tm.Nanosecond(), off))
 			return
 		}
 		*out = append(*out, "(")
@@ -92,10 +93,17 @@ func (p *ltParser) undump(v reflect.Value) {
 	case reflect.Struct:
 		if t.ConvertibleTo(timeType) {
 			tok := p.next()
-			parts := strings.SplitN(tok[1:], ".", 2)
+			body, zone, _ := strings.Cut(tok[1:], "z")
+			parts := strings.SplitN(body, ".", 2)
 			sec, _ := strconv.ParseInt(parts[0], 10, 64)
 			ns, _ := strconv.ParseInt(parts[1], 10, 64)
-			v.Set(reflect.ValueOf(time.Unix(sec, ns).UTC()).Convert(t))
+			off, _ := strconv.Atoi(zone)
+			tm := time.Unix(sec, ns).UTC()
+			if off != 0 {
+				// the same instant carried in another location
+				tm = tm.In(time.FixedZone("verif", off))
+			}
+			v.Set(reflect.ValueOf(tm).Convert(t))
 			return
 		}
 		if p.next() != "(" {
@@ -174,6 +182,12 @@ func (g *ltGen) text(field string) string {
 	case "EngineType":
 		return pick(r, []string{"", "Otto", "Diesel", "Electric"})
 	}
+	if r.chance(1, 60) {
+		// a long text dense with characters the filter rewrites: crosses several I/O buffers
+		g.s.count("lt.text.long")
+		unit := pick(r, []string{"line\t\"a\" 'b'\n", "\"'\t\n", "x\n", "'q' & <t>\t"})
+		return strings.Repeat(unit, 700+r.intn(1200))
+	}
 	if !g.domain && r.chance(1, 4) {
 		g.s.count("lt.text.nonxml")
 		return pick(r, ltTexts) + pick(r, ltBadTexts)
@@ -243,7 +257,11 @@ func (g *ltGen) when(sub bool) time.Time {
 	} else if !g.domain && r.chance(1, 4) {
 		ns = r.intn(1_000_000_000)
 	}
-	return time.Unix(sec, int64(ns)).UTC()
+	tm := time.Unix(sec, int64(ns)).UTC()
+	if r.chance(1, 3) {
+		tm = tm.In(time.FixedZone("verif", pick(r, []int{7200, -28800, 19800, 50400, -43200})))
+	}
+	return tm
 }
 
 func (g *ltGen) value(v reflect.Value, field string, depth int) {
